@@ -452,6 +452,23 @@ def leafIdxs : List Ev → List Nat
   | .leaf i :: r => i :: leafIdxs r
   | _ :: r => leafIdxs r
 
+/-- "Indents are well placed", starting from cursor `c`: at every `indent` event `_build_indent` finds an
+`INDENT` token (`findIndent toks cursor = some j`, where the cursor is the one the builder has reached there:
+one past the last token leaf or one past the last `INDENT` picked, whichever came later) and the first token
+leaf that follows in DFS order (if any) has an index strictly greater than `j`.  No ordering check is made on
+the leaves themselves: that is plain A2 (`leafIdxs` strictly increasing and in range). -/
+def indentsPlaced (toks : List LTok) : List Ev → Nat → Bool
+  | [], _ => true
+  | .leaf i :: r, _ => indentsPlaced toks r (i + 1)
+  | .ph :: r, c => indentsPlaced toks r c
+  | .indent :: r, c =>
+    match findIndent toks c with
+    | some j =>
+      (match (leafIdxs r).head? with
+        | some i => decide (j < i)
+        | none => true) && indentsPlaced toks r (j + 1)
+    | none => false
+
 /-- The `[NEVER]` slot (4th child) of a `transaction` child list is absent (or the list is too short). -/
 def slot3Absent : List MTree → Bool
   | _ :: _ :: _ :: s0 :: _ => s0.isAbsent
